@@ -46,6 +46,13 @@ func linkedIPHandler(
 
 		// Make sure that all requests are marked with our user agent.
 		r.Out.Header.Set(httphdr.UserAgent, agdhttp.UserAgent())
+
+		// Restore the headers set by ServeHTTP, since the proxy removes the
+		// ones that the client has listed in its Connection header as
+		// hop-by-hop before calling this function.
+		for _, name := range []string{httphdr.XConnectingIP, httphdr.XRequestID} {
+			r.Out.Header.Set(name, r.In.Header.Get(name))
+		}
 	}
 
 	// Use largely the same transport as http.DefaultTransport, but with a
